@@ -109,6 +109,19 @@ CLAIMS = {
              "within the caps on the repaired tree; the ZipCrypto short-read defect they found is recorded as fixed.",
         design_ref="DESIGN.md §5 C09, §11",
     ),
+    "C10": dict(
+        text="Bounded model checking of two mechanisms of the streaming reader only: (1) an entry the stream cannot support - "
+             "encryption bit or data-descriptor bit set, all other header values symbolic - is refused with an error, never "
+             "data; (2) resynchronisation: releasing the ZipFile that read_zipfile_from_stream hands out (owned metadata, "
+             "reader limited to the compressed size, constructed directly) after the consumer read 0 or 1 of its 3 bytes, over "
+             "an underlying stream that returns one byte per read call, leaves the stream exactly at the first byte after the "
+             "entry's data (the drop-time drain loops until end-of-entry, not until the first short read).",
+        note=TRUST + "NOT decided: that names/sizes/methods/timestamps/contents agree with the seekable reader and that the visitor "
+             "delivers central-directory metadata - read_zipfile_from_stream returns a merged Result whose fields are not "
+             "constants for symbolic execution, and the whole-entry harnesses (tier 'dev') do not finish within 600 s / 10 GB. "
+             "The entry state in (2) is constructed, not produced by the header parser.",
+        design_ref="DESIGN.md §5 C10, §11",
+    ),
     "C11": dict(
         text="Bounded model checking of single I/O faults in the writer: the scenario new, start_file(a), write, start_file(b), "
              "write, finish, drop runs over a sink that fails at ONE I/O call; the call index is concrete per harness variant - "
@@ -166,7 +179,9 @@ CLAIMS = {
              "every (length, version, vendor, strength, inner method) to the documented mode/method or error; an AES entry "
              "opened without a password yields the password-required error also when the encryption flag is missing; an "
              "entry shorter than salt + verifier + authentication code is refused (no underflow) for every size and "
-             "strength.",
+             "strength; password verification (AES-128, PBKDF2 as environment stub with concrete derived key material and "
+             "symbolic verifier bytes) accepts iff BOTH stored verifier bytes equal the derived ones, consumes exactly salt+2 "
+             "bytes and leaves compressed_size - (salt+2+10) ciphertext bytes.",
         note=TRUST + "NOT covered: that PBKDF2/HMAC-SHA1/AES-CTR compute the standard algorithms, that tampering is detected (HMAC "
              "unforgeability is not a bounded SAT question), and - not discharged within the caps - the MAC/read state "
              "machine and verifier harnesses (tier 'dev').",
@@ -180,8 +195,8 @@ CLAIMS = {
              "the local header and the central record (also with large_file, where the local length must cover the ZIP64 "
              "block), data starts where reported, reserved or truncated records - also central-only ones - are refused with "
              "an error; the central header writer stores caller extra data verbatim after the ZIP64 record.",
-        note=TRUST + "Alignment half: only the ENUMERATED cases of c17_aligned_enumerated_4 are decided (alignment 4 at file offsets "
-             "0..=3, alignments 0, 1, 2: data offset multiple of the alignment, padding in a well-formed local-only record, length "
+        note=TRUST + "Alignment half: only the ENUMERATED cases of c17_aligned_enumerated_8_3 (alignment 8 at file offsets 5 and 1, alignment 3 at 0..=2) and, "
+             "in the thorough tier, c17_aligned_enumerated_4 (alignment 4 at offsets 0..=3, alignments 0, 1, 2) are decided: data offset multiple of the alignment, padding in a well-formed local-only record, length "
              "as returned, content in place; alignment and offset concrete, data symbolic); 'every alignment 0..65535 at every "
              "preceding offset' is NOT decided (a symbolic padding length is a symbolic-size allocation: harness "
              "c17_aligned_small_any_offset in tier 'dev' does not finish).",
@@ -225,7 +240,6 @@ PENDING = "solver-based harnesses exist (tier 'dev' in /verif/harness) but are n
 # property -> reason (for properties not claimed)
 NOT_APPLICABLE = {
     "C07": "file-system effects of extract() are syscalls behind FFI with no encodable model; the reduced path-confinement harness under fs stubs is not yet discharged; see DESIGN.md §5 C07",
-    "C10": PENDING + " (only the refusal of encrypted/data-descriptor entries is discharged, registered under C05)",
     "C14": PENDING,
 }
 
@@ -239,6 +253,7 @@ OUTSIDE = {
     "C06": "mangled_name / file_name_sanitized (not discharged), names > 4 bytes, Unicode beyond the five byte classes, Windows path semantics",
     "C08": "entry-count thresholds (65534..65537 entries), multi-GiB real payloads (sizes are constructed symbolically), the 4 GiB write guard",
     "C09": "ZipCrypto and AES readers, short-write sinks, decoders' own buffering, streaming reader",
+    "C10": "agreement of names/sizes/contents with the seekable reader, the visitor API, entries > 3 bytes, hostile headers",
     "C11": "faults on the read side (open/read/append), several faults, Interrupted/WouldBlock semantics, scenarios with extra data / encryption / raw copy",
     "C12": "sequences other than the listed ones, raw copy, compression levels, unsupported methods",
     "C13": "more than one old entry / one new entry / one round in a single query, > 65535 entries, CPython-built bases",
